@@ -38,6 +38,11 @@ func (node *ChildNode) Individual() *IndividualNode {
 		return nil
 	}
 
+	// The pointer may belong to a record that is not an individual.
+	if _, ok := n.(*IndividualNode); !ok {
+		return nil
+	}
+
 	return n.(*IndividualNode)
 }
 
